@@ -80,6 +80,8 @@ func runC16(l *core.Ledger) {
 	c16Y9(l, g)
 	c16Y10(l, g)
 	c16Y11(l, g, "C16-Y11")
+	c16Y13(l, g)
+	c16Y12(l, g)
 	_ = table
 }
 
@@ -2528,4 +2530,307 @@ func c16Y9(l *core.Ledger, g *gen.Generator) {
 		return
 	}
 	l.Check(val.IsValid() && val < has, "C16-Y9", "gengorums.gorumsGuard/validate-first", has, "every method is validated before the nothing-to-do decision", "the guard decides that there is nothing to generate (no method matches a call type) before any method was validated: a service whose methods all carry an illegal combination that matches no call type (async without quorumcall) is skipped silently - exit 0, no output, no diagnostic - although the same method is rejected next to one well-formed method")
+}
+
+// c16Y13: `use "pkg.Ident" .GenFile` registers the import of pkg in the
+// generated file at the moment it is executed. If the variable it defines is
+// used only under a condition that is narrower than the one under which the
+// `use` itself runs, some input executes the `use` without emitting the
+// identifier: the file imports a package it does not use and does not compile.
+// Packages the static code (emitted into every file) imports are always used.
+func c16Y13(l *core.Ledger, g *gen.Generator) {
+	l.Rule("C16-Y13", "every template variable defined by `use` (which registers an import) is used at least once under no narrower condition than its definition - unless the static code imports the package anyway")
+	always := map[string]bool{}
+	if dev := l.Prog.Pkg("cmd/protoc-gen-gorums/dev"); dev != nil {
+		for _, f := range dev.Syntax {
+			fname := l.Prog.Fset.File(f.Pos()).Name()
+			if strings.HasSuffix(fname, ".pb.go") || strings.HasSuffix(fname, "_test.go") {
+				continue
+			}
+			for _, im := range f.Imports {
+				p := strings.Trim(im.Path.Value, "\"")
+				always[p[strings.LastIndex(p, "/")+1:]] = true
+			}
+		}
+	}
+	// the full templates: what the call-type table names (fragments are parts of them)
+	nameSet := map[string]bool{}
+	for _, e := range g.CallTypes {
+		if e.Template != "" {
+			nameSet[e.Template] = true
+		}
+		for _, ne := range e.Nested {
+			if ne.Template != "" {
+				nameSet[ne.Template] = true
+			}
+		}
+	}
+	var names []string
+	for name := range nameSet {
+		if text, ok := g.Strings[name]; ok && strings.Contains(text, "use ") {
+			names = append(names, name)
+		}
+	}
+	sort.Strings(names)
+	n := 0
+	reported := map[string]bool{}
+	for _, name := range names {
+		tree, err := g.ParseTemplate(name)
+		if err != nil || tree == nil || tree.Root == nil {
+			continue // a fragment that does not parse on its own; it is part of a full template
+		}
+		type def struct {
+			v, arg string
+			path   []parse.Node
+			pos    parse.Pos
+		}
+		var defs []def
+		uses := map[string][][]parse.Node{}
+		var walkPipeUses func(p *parse.PipeNode, path []parse.Node)
+		var walkArgs func(args []parse.Node, path []parse.Node)
+		walkArgs = func(args []parse.Node, path []parse.Node) {
+			for _, a := range args {
+				switch x := a.(type) {
+				case *parse.VariableNode:
+					uses[x.Ident[0]] = append(uses[x.Ident[0]], append([]parse.Node(nil), path...))
+				case *parse.PipeNode:
+					walkPipeUses(x, path)
+				}
+			}
+		}
+		walkPipeUses = func(p *parse.PipeNode, path []parse.Node) {
+			if p == nil {
+				return
+			}
+			for _, c := range p.Cmds {
+				walkArgs(c.Args, path)
+			}
+		}
+		var walk func(nd parse.Node, path []parse.Node)
+		walk = func(nd parse.Node, path []parse.Node) {
+			switch x := nd.(type) {
+			case *parse.ListNode:
+				if x == nil {
+					return
+				}
+				for _, c := range x.Nodes {
+					walk(c, path)
+				}
+			case *parse.ActionNode:
+				if len(x.Pipe.Decl) == 1 && len(x.Pipe.Cmds) == 1 && len(x.Pipe.Cmds[0].Args) >= 2 {
+					if id, ok := x.Pipe.Cmds[0].Args[0].(*parse.IdentifierNode); ok && id.Ident == "use" {
+						if s, ok := x.Pipe.Cmds[0].Args[1].(*parse.StringNode); ok {
+							defs = append(defs, def{x.Pipe.Decl[0].Ident[0], s.Text, append([]parse.Node(nil), path...), x.Pos})
+						}
+					}
+				}
+				walkPipeUses(x.Pipe, path)
+			case *parse.IfNode:
+				walkPipeUses(x.Pipe, path)
+				walk(x.List, append(path, x))
+				walk(x.ElseList, append(path, x.ElseList))
+			case *parse.RangeNode:
+				walkPipeUses(x.Pipe, path)
+				walk(x.List, append(path, x))
+				walk(x.ElseList, append(path, x.ElseList))
+			case *parse.WithNode:
+				walkPipeUses(x.Pipe, path)
+				walk(x.List, append(path, x))
+				walk(x.ElseList, append(path, x.ElseList))
+			case *parse.TemplateNode:
+				walkPipeUses(x.Pipe, path)
+			}
+		}
+		walk(tree.Root, nil)
+		for _, d := range defs {
+			pkg := d.arg
+			if i := strings.Index(pkg, "."); i >= 0 {
+				pkg = pkg[:i]
+			}
+			key := fmt.Sprintf("gengorums.%s/%s=use(%s)", name, d.v, d.arg)
+			if reported[d.v+d.arg+fmt.Sprint(len(d.path))] && false {
+				continue
+			}
+			n++
+			if always[pkg] {
+				l.OK("C16-Y13", key, g.StrPos[name], "the static code imports "+pkg+" in every generated file")
+				continue
+			}
+			ok := false
+			for _, up := range uses[d.v] {
+				if len(up) == len(d.path) {
+					same := true
+					for i := range up {
+						if up[i] != d.path[i] {
+							same = false
+						}
+					}
+					if same {
+						ok = true
+					}
+				}
+			}
+			l.Check(ok, "C16-Y13", key, g.StrPos[name], "used under the condition it is defined under", "the template registers the import of "+pkg+" ("+d.v+" := use \""+d.arg+"\") outside the condition under which it uses "+d.v+": for a method on which that condition is false - and a file in which nothing else uses the package - the generated file imports "+pkg+" without using it and does not compile, with no diagnostic")
+		}
+	}
+	l.Floor("C16-Y13", n, 10, "`use` definitions in the templates")
+}
+
+// c16Y12: who may reject an input. The documentation names what is illegal: the
+// option combinations (lifted from validateOptions and compared with the tables
+// by Y3), the reserved message names (Y6), more than one service per file. Every
+// other input is promised to be accepted, so a path to a fatal diagnostic on the
+// plugin path is either the propagation of an error (validateOptions, a
+// library) or guarded by one of these documented conditions.
+func c16Y12(l *core.Ledger, g *gen.Generator) {
+	l.Rule("C16-Y12", "who may reject: every fatal diagnostic on the plugin path is the propagation of an error value (of validateOptions or a function outside the generator package), or is guarded by the reserved-identifier comparison or the one-service-per-file test - the conditions the documentation names; no other predicate over the input rejects it")
+	info := g.Pkg.TypesInfo
+	n := 0
+	for _, f := range reachableGenFuncs(l, g) {
+		if f.decl != nil && strings.HasSuffix(l.Prog.Fset.File(f.decl.Pos()).Name(), "gorums_bundle.go") {
+			continue
+		}
+		var stack []ast.Node
+		ast.Inspect(f.body(), func(nd ast.Node) bool {
+			if nd == nil {
+				stack = stack[:len(stack)-1]
+				return true
+			}
+			stack = append(stack, nd)
+			ce, ok := nd.(*ast.CallExpr)
+			if !ok {
+				return true
+			}
+			fn := resolvedCall(info, ce)
+			if fn == nil || fn.Pkg() == nil || fn.Pkg().Path() != "log" || !strings.HasPrefix(fn.Name(), "Fatal") {
+				return true
+			}
+			n++
+			key := fmt.Sprintf("gengorums.%s/fatal#%d", strings.TrimPrefix(f.name, "."), n)
+			// enclosing conditions, innermost first
+			reason, bad := "", ""
+			for k := len(stack) - 2; k >= 0 && reason == ""; k-- {
+				ifs, isIf := stack[k].(*ast.IfStmt)
+				if !isIf {
+					continue
+				}
+				// is the call in the body (not the else)?
+				inBody := false
+				for q := k + 1; q < len(stack); q++ {
+					if stack[q] == ast.Node(ifs.Body) {
+						inBody = true
+					}
+				}
+				if !inBody {
+					continue
+				}
+				cond := ifs.Cond
+				// (a) err != nil
+				if be, isBE := cond.(*ast.BinaryExpr); isBE && be.Op == token.NEQ && isNilIdent(info, be.Y) {
+					if t := info.TypeOf(be.X); t != nil && types.Identical(t, types.Universe.Lookup("error").Type()) {
+						// where does the error come from?
+						src := errorSource(info, f.body(), ifs, objOf(info, be.X))
+						if src == nil || src.Pkg() == nil || src.Pkg() != g.Pkg.Types || src.Name() == "validateOptions" {
+							reason = "propagates an error"
+						} else {
+							bad = "the error of " + src.Name() + ", a validator of the generator other than validateOptions"
+						}
+						break
+					}
+				}
+				// (b) the reserved-identifier comparison, (c) the one-service test
+				mentions := func(pred func(*ast.Ident) bool) bool {
+					hit := false
+					ast.Inspect(cond, func(m ast.Node) bool {
+						if id, isID := m.(*ast.Ident); isID && pred(id) {
+							hit = true
+						}
+						return true
+					})
+					return hit
+				}
+				if mentions(func(id *ast.Ident) bool { return rangesOver(info, f.body(), objOf(info, id), "reservedIdents") }) {
+					reason = "reserved identifier"
+					break
+				}
+				if mentions(func(id *ast.Ident) bool { return id.Name == "Services" }) {
+					reason = "one service per file"
+					break
+				}
+				bad = "the condition " + types.ExprString(cond)
+				break
+			}
+			if reason == "" && bad == "" {
+				bad = "no condition at all"
+			}
+			if reason != "" {
+				l.OK("C16-Y12", key, ce.Pos(), reason)
+			} else {
+				l.Bad("C16-Y12", key, ce.Pos(), "the generator stops with a fatal diagnostic on "+bad+": this is not one of the conditions the documentation names as illegal (option combinations decided by validateOptions, reserved message names, several services in one file), so an input the documentation allows can be rejected")
+			}
+			return true
+		})
+	}
+	l.Floor("C16-Y12", n, 3, "fatal diagnostics on the plugin path")
+}
+
+// errorSource: the function whose result is assigned to errObj in the init of ifs
+// or in the statement before it.
+func errorSource(info *types.Info, body *ast.BlockStmt, ifs *ast.IfStmt, errObj types.Object) *types.Func {
+	var out *types.Func
+	consider := func(st ast.Stmt) {
+		as, ok := st.(*ast.AssignStmt)
+		if !ok || len(as.Rhs) != 1 {
+			return
+		}
+		for _, lhs := range as.Lhs {
+			if objOf(info, lhs) == errObj {
+				if ce, isCall := as.Rhs[0].(*ast.CallExpr); isCall {
+					out = resolvedCall(info, ce)
+				}
+			}
+		}
+	}
+	if ifs.Init != nil {
+		consider(ifs.Init)
+	}
+	if out != nil {
+		return out
+	}
+	ast.Inspect(body, func(n ast.Node) bool {
+		bl, ok := n.(*ast.BlockStmt)
+		if !ok {
+			return true
+		}
+		for i, st := range bl.List {
+			if st == ast.Stmt(ifs) && i > 0 {
+				consider(bl.List[i-1])
+			}
+		}
+		return true
+	})
+	return out
+}
+
+// rangesOver: obj is the key or value variable of a range over the package-level variable named global.
+func rangesOver(info *types.Info, body *ast.BlockStmt, obj types.Object, global string) bool {
+	if obj == nil {
+		return false
+	}
+	hit := false
+	ast.Inspect(body, func(n ast.Node) bool {
+		rs, ok := n.(*ast.RangeStmt)
+		if !ok {
+			return true
+		}
+		if id, isID := rs.X.(*ast.Ident); isID && id.Name == global {
+			for _, kv := range []ast.Expr{rs.Key, rs.Value} {
+				if kv != nil && objOf(info, kv) == obj {
+					hit = true
+				}
+			}
+		}
+		return true
+	})
+	return hit
 }
